@@ -61,6 +61,7 @@ fn main() {
         "C08" => planted_check(chk),
         "C09" => verdict_check(chk),
         "C10" => determinism_check(chk),
+        "C19" => attrs_family(chk),
         _ => {
             eprintln!("pxe2e: unknown property {prop}");
             std::process::exit(2);
@@ -189,6 +190,33 @@ fn shrink_verdict(spec: &AppSpec, sig: &str) -> (AppSpec, Option<round::PavexcVe
     (small, last)
 }
 
+/// Does some pipeline stage use one clone-if-necessary value in the order move .. borrow .. move .. borrow?
+fn has_move_borrow_alternation(spec: &AppSpec) -> bool {
+    for r in model::routes(spec) {
+        let stages = model::stages(spec, &r.chain);
+        let last = stages.len() - 1;
+        for (si, st) in stages.iter().enumerate() {
+            let mut order: Vec<usize> = st.pres.clone();
+            order.push(if si == last { r.handler } else { st.wrap.unwrap_or(r.handler) });
+            order.extend(st.posts.iter().copied());
+            for t in 0..spec.types.len() {
+                if spec.types[t].clone_if_necessary != Some(true) {
+                    continue;
+                }
+                let modes: Vec<Mode> = order.iter().filter_map(|c| spec.comps[*c].inputs.iter().find(|(x, _)| *x == t).map(|(_, m)| *m)).collect();
+                let Some(first_move) = modes.iter().position(|m| *m == Mode::Move) else { continue };
+                let last_move = modes.iter().rposition(|m| *m == Mode::Move).unwrap();
+                let borrow_between = modes[first_move..last_move].iter().any(|m| *m == Mode::Ref);
+                let borrow_after = modes[last_move..].iter().any(|m| *m == Mode::Ref);
+                if first_move != last_move && borrow_between && borrow_after {
+                    return true;
+                }
+            }
+        }
+    }
+    false
+}
+
 fn nontrivial_c02(spec: &AppSpec) -> bool {
     let routes = model::routes(spec);
     routes.iter().any(|r| r.chain.len() >= 3 || r.nest_depth >= 2)
@@ -225,10 +253,37 @@ fn pipeline_family(mut chk: Check) -> ! {
     // draw all specs up front (pure function of the seed)
     let mut runner = chk.settings.runner("pipeline", (n_rounds * k_per_round) as u32);
     let strat = genr::genome();
+    // every third application writes some lifecycles / cloning policies differently in the attribute
+    // and overrides them at registration (same effective application; see C19 part (b))
     let rounds: Vec<Vec<AppSpec>> = (0..n_rounds)
-        .map(|_| (0..k_per_round).map(|_| genr::build_abiding(&strat.new_tree(&mut runner).unwrap().current()).spec).collect())
+        .map(|r| {
+            (0..k_per_round)
+                .map(|k| {
+                    let spec = genr::build_abiding(&strat.new_tree(&mut runner).unwrap().current()).spec;
+                    let mix = seed ^ ((r * 64 + k) as u64).wrapping_mul(0x9e3779b97f4a7c15);
+                    if k + 2 >= k_per_round {
+                        // the last two applications of every round stress one pipeline stage (see genr::build_stage_stress)
+                        genr::build_stage_stress(mix)
+                    } else if k % 3 == 2 {
+                        genr::apply_attr_styles(&spec, mix).spec
+                    } else {
+                        spec
+                    }
+                })
+                .collect()
+        })
         .collect();
-    let _ = seed;
+    // C01 also compiles route tables (fallbacks, framework-provided inputs, method guards live in the generated router)
+    let mut rounds = rounds;
+    if prop == "C01" {
+        let extra = if tier == Tier::Quick { 3 } else { 30 };
+        let mut runner = chk.settings.runner("pipeline-routing", (extra * k_per_round) as u32);
+        let strat = genr::routing_genome(false);
+        for _ in 0..extra {
+            rounds.push((0..k_per_round).map(|k| genr::build_routing(&strat.new_tree(&mut runner).unwrap().current(), k)).collect());
+        }
+    }
+    let rounds = rounds;
     let results: Vec<(usize, RoundOutcome)> = std::thread::scope(|s| {
         let rounds = &rounds;
         let hs: Vec<_> = (0..n_lanes)
@@ -318,6 +373,9 @@ fn evaluate_round(chk: &mut Check, prop: &str, specs: &[AppSpec], out: &RoundOut
             } else {
                 for k in accepted {
                     let spec = &specs[k];
+                    if has_move_borrow_alternation(spec) {
+                        chk.ev.label("shape:move-borrow-move-borrow-in-one-stage");
+                    }
                     if nontrivial_c02(spec) || spec.types.iter().any(|t| t.fallible.is_some()) {
                         chk.ev.nontrivial.insert(fnv(&serde_json::to_string(spec).unwrap()));
                     }
@@ -515,7 +573,7 @@ fn routing_probes(spec: &AppSpec) -> Vec<(String, String, Option<String>)> {
     }
     paths.insert("/".to_string());
     paths.insert("/zz".to_string());
-    let methods = ["GET", "POST", "DELETE", "HEAD", "FOO", "BAR", "OPTIONS", "PUT"];
+    let methods = ["GET", "POST", "DELETE", "HEAD", "FOO", "BAR", "OPTIONS", "PUT", "GeT", "get", "purge", "PURGE"];
     let mut out = vec![];
     for (pi, p) in paths.iter().enumerate() {
         for (hi, h) in hosts.iter().enumerate() {
@@ -665,6 +723,11 @@ fn evaluate_routing(chk: &mut Check, specs: &[AppSpec], out: &RoundOutcome, solo
             }
         }
     }
+    if !out.combined.accepted() && !solo && out.individual.iter().all(|v| v.as_ref().is_some_and(|v| v.accepted())) {
+        // every table is accepted alone, but nesting them under distinct static prefixes `/s<k>` is rejected
+        save_violation(chk, "routing", &format!("combination-rejected:{}", out.combined.signature()), &format!("every route table of the round is accepted on its own, but the same tables nested under distinct prefixes /s<k> are rejected:\n{}", out.combined.brief()), &specs[0], json!({"all_specs": specs}));
+        return;
+    }
     let Some(banner) = &out.banner else {
         if let Some(b) = &out.sdk_build {
             if !b.ok() {
@@ -749,7 +812,7 @@ fn evaluate_routing(chk: &mut Check, specs: &[AppSpec], out: &RoundOutcome, solo
                     chk.ev.sample(json!({"probe": format!("{m} {p} Host={h:?}"), "routed_to": format!("{want:?}"), "status": resp["status"], "table": model::routes(spec).iter().map(|r| format!("{} {}", r.methods.join("|"), r.full_path)).collect::<Vec<_>>()}));
                 }
             }
-            for (l, on) in [("method-miss", notes.method_miss), ("nested-fallback", notes.nested_fallback), ("param-or-catch-all", notes.used_param), ("custom-method", notes.custom_method), ("priority-decided", notes.priority_used), ("exact-prefix", notes.exact_prefix), ("domain-matched", notes.domain_matched.is_some())] {
+            for (l, on) in [("method-miss", notes.method_miss), ("nested-fallback", notes.nested_fallback), ("param-or-catch-all", notes.used_param), ("custom-method", notes.custom_method), ("priority-decided", notes.priority_used), ("exact-prefix", notes.exact_prefix), ("method-miss-in-unprefixed-nest-with-own-fallback", notes.unprefixed_nested_fallback), ("domain-matched", notes.domain_matched.is_some())] {
                 if on {
                     chk.ev.label(l);
                 }
@@ -761,10 +824,14 @@ fn evaluate_routing(chk: &mut Check, specs: &[AppSpec], out: &RoundOutcome, solo
 fn replay_routing(chk: &mut Check, path: &std::path::Path) {
     let text = std::fs::read_to_string(path).unwrap_or_default();
     let doc: Value = serde_json::from_str(&text).unwrap_or(Value::Null);
-    let Ok(spec) = serde_json::from_value::<AppSpec>(doc["case"]["spec"].clone()) else {
-        return;
+    let specs: Vec<AppSpec> = if let Some(all) = doc["case"]["extra"]["all_specs"].as_array() {
+        all.iter().filter_map(|s| serde_json::from_value(s.clone()).ok()).collect()
+    } else {
+        serde_json::from_value::<AppSpec>(doc["case"]["spec"].clone()).map(|s| vec![s]).unwrap_or_default()
     };
-    let specs = vec![spec];
+    if specs.is_empty() {
+        return;
+    }
     let lane = lane("replay");
     let solo = specs[0].note.contains("domains");
     let out = round::run_round(&lane, &specs, &RoundOpts { want_individual: true, run_requests: true, solo }, &|k| routing_script(&specs[k], k, solo).0);
@@ -1036,7 +1103,7 @@ fn verdict_check(mut chk: Check) -> ! {
     // recorded cases: the recorded spec is the variant, a trivial application is the base
     for s in &replay_specs {
         let mut trivial = AppSpec::default();
-        trivial.comps.push(CompSpec { kind: CompKind::Handler, inputs: vec![], fallible: None, is_async: false, route: Some(RouteSpec { methods: vec!["GET".into()], path: "/".into(), path_param_fields: vec![] }) });
+        trivial.comps.push(CompSpec { kind: CompKind::Handler, inputs: vec![], fallible: None, is_async: false, route: Some(RouteSpec { methods: vec!["GET".into()], path: "/".into(), path_param_fields: vec![], bulk: false }), fw: vec![] });
         trivial.bp.push(Reg::Comp { idx: 0 });
         trivial.note = "trivial base".into();
         pairs.push((trivial, s.clone()));
@@ -1327,4 +1394,142 @@ fn determinism_history(lane: &engine::Lane, k: usize, cold: bool) -> Result<Vec<
         labels.push("run:cold-cache".into());
     }
     Ok(labels)
+}
+
+// ------------------------------------------------------------------------------------------
+// C19 part (b): properties written in attributes (and overridden at registration) reach the compiler
+// ------------------------------------------------------------------------------------------
+
+fn attrs_family(mut chk: Check) -> ! {
+    let tier = chk.tier();
+    chk.ev.rule = "part (b), end to end through the real macros, rustdoc JSON and the compiler's attribute parser: rule-abiding generated applications whose lifecycles / cloning policies are written in the attribute and, for a third of the types, written *differently* in the attribute and overridden at registration (.lifecycle / .clone_if_necessary / .never_clone); 1-2 constructors nobody needs, with or without allow(unused); route tables with shorthand attributes, method lists, mixed-case custom methods (GeT, purge), any_method with and without non_standard_methods. Oracle: the styled application is accepted, the running server shows the *effective* lifecycles and cloning behaviour (same oracles as C03/C04), an unused-constructor warning appears iff allow(unused) is absent, every route answers exactly its method set (reference router of C07). non-trivial = an application with >=1 override or a probe with a custom method; distinct = distinct (spec[, probe])".into();
+    let (n_rounds, k_per_round, n_lanes, routing_rounds) = match tier {
+        Tier::Quick => (3usize, 6usize, 3usize, 3usize),
+        Tier::Thorough => (60, 8, 6, 30),
+    };
+    if let Some(p) = chk.settings.replay.clone() {
+        let text = std::fs::read_to_string(&p).unwrap_or_default();
+        if text.contains("\"campaign\": \"routing") || text.contains("\"campaign\":\"routing") {
+            replay_routing(&mut chk, &p);
+        } else {
+            replay_pipeline(&mut chk, &p);
+        }
+        chk.finish();
+    }
+    // ---- styled pipeline applications
+    let mut runner = chk.settings.runner("attrs", (n_rounds * k_per_round) as u32);
+    let strat = genr::genome();
+    let seed = chk.settings.sub_seed("attrs-style");
+    let rounds: Vec<Vec<genr::Styled>> = (0..n_rounds)
+        .map(|r| (0..k_per_round).map(|k| genr::apply_attr_styles(&genr::build_abiding(&strat.new_tree(&mut runner).unwrap().current()).spec, seed ^ ((r * 64 + k) as u64).wrapping_mul(0x9e3779b97f4a7c15))).collect())
+        .collect();
+    let results: Vec<(usize, RoundOutcome)> = std::thread::scope(|s| {
+        let rounds = &rounds;
+        let hs: Vec<_> = (0..n_lanes)
+            .map(|l| {
+                s.spawn(move || {
+                    let lane = lane(&format!("l{l}"));
+                    let mut out = vec![];
+                    for (ri, styled) in rounds.iter().enumerate() {
+                        if ri % n_lanes != l {
+                            continue;
+                        }
+                        let specs: Vec<AppSpec> = styled.iter().map(|s| s.spec.clone()).collect();
+                        let o = round::run_round(&lane, &specs, &RoundOpts { want_individual: true, run_requests: true, solo: false }, &|k| script_for(&specs[k], k, false).0);
+                        out.push((ri, o));
+                    }
+                    out
+                })
+            })
+            .collect();
+        hs.into_iter().flat_map(|h| h.join().unwrap()).collect()
+    });
+    let mut results = results;
+    results.sort_by_key(|(ri, _)| *ri);
+    for (ri, out) in &results {
+        if let Some(e) = &out.infra_error {
+            eprintln!("INFRA property=C19 round={ri}: {e}");
+            chk.ev.write();
+            std::process::exit(2);
+        }
+        let styled = &rounds[*ri];
+        let specs: Vec<AppSpec> = styled.iter().map(|s| s.spec.clone()).collect();
+        // (1) accepted, as the unstyled application would be
+        for (k, st) in styled.iter().enumerate() {
+            chk.ev.evaluations += 1;
+            let v = out.individual.get(k).and_then(|v| v.as_ref());
+            let accepted = out.combined.accepted() || v.is_some_and(|v| v.accepted());
+            if !accepted {
+                let v = v.unwrap_or(&out.combined);
+                save_violation(&mut chk, "attrs", &format!("styled-application-rejected:{}", v.signature()), &format!("a rule-abiding application is rejected once some properties are written in the attribute and overridden at registration:\n{}", v.brief()), &st.spec, json!({"k": k}));
+                continue;
+            }
+            if st.n_overrides > 0 {
+                chk.ev.nontrivial.insert(fnv(&serde_json::to_string(&st.spec).unwrap()));
+                chk.ev.label("app:with-overrides");
+            }
+            // (2) allow(unused) honoured: look at the diagnostics of the run that accepted it
+            let stderr = match v {
+                Some(v) if v.accepted() => v.stderr.clone(),
+                _ => out.combined.stderr.clone(),
+            };
+            for (ti, allow) in &st.unused {
+                let needle = format!("m{k}::T{ti}`");
+                let needle2 = format!("m{k}::c{ti}_0");
+                let warned = stderr.split("WARNING").skip(1).any(|block| {
+                    let block = block.split("ERROR").next().unwrap_or("");
+                    (block.contains(&needle) || block.contains(&needle2)) && block.contains("never used")
+                });
+                if warned == *allow {
+                    let sig = if *allow { "allow-unused-ignored" } else { "unused-constructor-not-reported" };
+                    save_violation(&mut chk, "attrs", sig, &format!("constructor of T{ti} is never used and {} allow(unused) in its attribute, but the compiler {} a warning for it", if *allow { "has" } else { "does not have" }, if warned { "printed" } else { "did not print" }), &st.spec, json!({"k": k, "type": ti}));
+                } else {
+                    chk.ev.label(if *allow { "unused:silenced-by-attribute" } else { "unused:warned" });
+                }
+            }
+            if chk.ev.samples.len() < 2 && st.n_overrides > 0 {
+                let over: Vec<String> = st.spec.types.iter().enumerate().filter(|(_, t)| t.attr_life.is_some() || t.attr_clone.is_some()).map(|(i, t)| format!("T{i}: attribute says {:?}/{:?}, registration says {:?}/{:?}", t.attr_life, t.attr_clone, t.life, t.clone_if_necessary)).collect();
+                chk.ev.sample(json!({"app": spec_summary(&st.spec), "overrides": over}));
+            }
+        }
+        // (3) effective lifecycles and cloning policies at run time
+        evaluate_round(&mut chk, "C04", &specs, out, false);
+    }
+    // ---- route tables: method sets written in attributes
+    {
+        let mut runner = chk.settings.runner("attrs-routing", (routing_rounds * 6) as u32);
+        let strat = genr::routing_genome(false);
+        let rounds: Vec<Vec<AppSpec>> = (0..routing_rounds).map(|_| (0..6).map(|k| genr::build_routing(&strat.new_tree(&mut runner).unwrap().current(), k)).collect()).collect();
+        let results: Vec<(usize, RoundOutcome)> = std::thread::scope(|s| {
+            let rounds = &rounds;
+            let hs: Vec<_> = (0..n_lanes)
+                .map(|l| {
+                    s.spawn(move || {
+                        let lane = lane(&format!("l{l}"));
+                        let mut out = vec![];
+                        for (ri, specs) in rounds.iter().enumerate() {
+                            if ri % n_lanes != l {
+                                continue;
+                            }
+                            let o = round::run_round(&lane, specs, &RoundOpts { want_individual: false, run_requests: true, solo: false }, &|k| routing_script(&specs[k], k, false).0);
+                            out.push((ri, o));
+                        }
+                        out
+                    })
+                })
+                .collect();
+            hs.into_iter().flat_map(|h| h.join().unwrap()).collect()
+        });
+        let mut results = results;
+        results.sort_by_key(|(ri, _)| *ri);
+        for (ri, out) in &results {
+            if let Some(e) = &out.infra_error {
+                eprintln!("INFRA property=C19 round={ri}: {e}");
+                chk.ev.write();
+                std::process::exit(2);
+            }
+            evaluate_routing(&mut chk, &rounds[*ri], out, false);
+        }
+    }
+    chk.finish()
 }
